@@ -30,7 +30,7 @@ EnfAll == {"C01", "C02", "C05", "C07", "C08", "C10", "C11", "C12", "C16"}
 Producers == {"var", "newvar", "neg", "and", "or", "xor", "iff", "ite", "cond", "condm", "exists",
               "compose", "andl", "orl", "cnf", "cnfa", "expr", "plan", "smooth", "low", "high"}
 Queries == {"eq", "recheck", "eval", "count", "wmc", "uwmc", "semhash", "mmap", "meu", "bb",
-            "topvar", "mc", "wmcr", "wmcc", "wmcp", "json", "cnt", "sddpipe", "tdpipe", "cmisc"}
+            "topvar", "mc", "wmcr", "wmcc", "wmcp", "json", "cnt", "sddpipe", "tdpipe", "cmisc", "bfold"}
 
 Init ==
   /\ l = 2
